@@ -827,12 +827,29 @@ def _renumber(m, maps):
             f.id = maps["side"].get(f.id, f.id)
 
 
-def _cmp_map(m, p, minimal, disp_mb, preserve):
-    for attr in ("format_ver", "hammer_ver", "hammer_build", "is_prefab", "map_ver"):
-        check(getattr(m, attr) == getattr(p, attr), "VMF." + attr, getattr(m, attr), getattr(p, attr))
+HDR_ATTRS = ("format_ver", "hammer_ver", "hammer_build", "is_prefab", "map_ver")
+HDR_ATTRS_FULL = ("show_grid", "show_3d_grid", "snap_grid", "show_logic_grid", "grid_spacing", "active_cam", "strata_instance_vis")
+
+
+def _hdr_snapshot(m):
+    """Header fields and camera activity as they are BEFORE export (export must not be what decides the expected value)."""
+    snap = {a: getattr(m, a) for a in HDR_ATTRS + HDR_ATTRS_FULL}
+    snap["cam_active"] = [c.is_active() for c in m.cameras]
+    if not m.cameras:
+        snap["active_cam"] = -1        # documented: a map without cameras has no active camera
+    return snap
+
+
+def _cmp_map(m, p, minimal, disp_mb, preserve, snap=None):
+    snap = snap if snap is not None else _hdr_snapshot(m)
+    for attr in HDR_ATTRS:
+        check(snap[attr] == getattr(p, attr), "VMF." + attr, snap[attr], getattr(p, attr))
+        check(snap[attr] == getattr(m, attr), "export changed the exported map's " + attr, snap[attr], getattr(m, attr))
     if not minimal:
-        for attr in ("show_grid", "show_3d_grid", "snap_grid", "show_logic_grid", "grid_spacing", "active_cam", "strata_instance_vis"):
-            check(getattr(m, attr) == getattr(p, attr), "VMF." + attr, getattr(m, attr), getattr(p, attr))
+        for attr in HDR_ATTRS_FULL:
+            check(snap[attr] == getattr(p, attr), "VMF." + attr, snap[attr], getattr(p, attr))
+            check(snap[attr] == getattr(m, attr), "export changed the exported map's " + attr, snap[attr], getattr(m, attr))
+        check([c.is_active() for c in p.cameras] == snap["cam_active"], "which camera is active", snap["cam_active"], [c.is_active() for c in p.cameras])
         check(p.cordon_enabled == (m.cordon_enabled and len(m.cordons) > 0), "VMF.cordon_enabled", m.cordon_enabled, p.cordon_enabled)
         check(len(m.cameras) == len(p.cameras), "number of cameras", len(m.cameras), len(p.cameras))
         for i, (a, b) in enumerate(zip(m.cameras, p.cameras)):
@@ -887,6 +904,7 @@ def h_vmf(hx: int, b0: bool, b1: bool, b2: bool, skel: int, preserve: bool, mini
         assume(b0 and b1 and not b2)
     hv, hb, mv, gs, ac, qh, iv = pick(HDR, hx)
     m = _build_map(skel, hv, hb, mv, gs, (b0, not b0, b1, not b1, b2, not b2), ac, qh, iv)
+    snap = _hdr_snapshot(m)
     s1 = ChunkSink()
     m.export(s1, inc_version=False, minimal=minimal, disp_multiblend=disp_mb)
     p = vmf.VMF.parse(_kv(s1.parts), preserve_ids=preserve)
@@ -902,7 +920,7 @@ def h_vmf(hx: int, b0: bool, b1: bool, b2: bool, skel: int, preserve: bool, mini
         maps[kind] = dict(zip(a, b))
     _renumber(m, maps)
     _CMP["multiblend"] = disp_mb
-    _cmp_map(m, p, minimal, disp_mb, preserve)
+    _cmp_map(m, p, minimal, disp_mb, preserve, snap)
     s1b = ChunkSink()
     m.export(s1b, inc_version=False, minimal=minimal, disp_multiblend=disp_mb)
     s2 = ChunkSink()
